@@ -13,8 +13,6 @@ structure Supported (c : Call) (t : List Dim) : Prop where
   varsNodup : ∀ v ∈ c.vars, v.2.Nodup
   /-- a group name that is also a dim of a variable is the grouper's own dimension coordinate -/
   groupNamesFresh : ∀ g ∈ c.groupers, ∀ v ∈ c.vars, groupName g ∈ v.2 → g.isbin = false ∧ g.dims = [g.name]
-  /-- `dim=...` is not combined with grouping by a dimension (coordinate)                             (*) -/
-  ellipsisNoDimCoord : c.dim = .ellipsis → ∀ g ∈ c.groupers, g.name ∉ c.objDims ∨ g.isbin = true
   /-- binning reduces at least one dim of the grouper (otherwise native does a plain reduction)        (*) -/
   binsReduceGrouperDim : c.groupers.any (·.isbin) = true → t.all (· ∉ grouperDims c.groupers) = false
   /-- the plain-reduction shortcut is compared only for groupers along one dim                        (*) -/
@@ -31,8 +29,7 @@ structure Supported (c : Call) (t : List Dim) : Prop where
   /-- a reduced variable has every reduced dim (otherwise apply_ufunc raises)                          (*) -/
   coreDimsPresent : shortcut c t = false → ∀ v ∈ c.vars, missing c t v.2 = false → ∀ x ∈ t, x ∈ v.2
 
-theorem dimTuple_native (c : Call) (t : List Dim) (ht : dimTuple c = .ok t)
-    (he : c.dim = .ellipsis → ∀ g ∈ c.groupers, g.name ∉ c.objDims ∨ g.isbin = true) : t = nativeReduced c := by
+theorem dimTuple_native (c : Call) (t : List Dim) (ht : dimTuple c = .ok t) : t = nativeReduced c := by
   unfold dimTuple at ht
   unfold nativeReduced
   cases hdim : c.dim with
@@ -51,12 +48,6 @@ theorem dimTuple_native (c : Call) (t : List Dim) (ht : dimTuple c = .ok t)
     match hg : c.groupers with
     | [g] =>
       simp only [hg] at ht
-      have := he hdim g (by simp [hg])
-      have hcond : ¬ (g.name ∈ c.objDims ∧ ¬ g.isbin = true) := by
-        rcases this with h | h
-        · exact fun hh => h hh.1
-        · exact fun hh => hh.2 h
-      simp only [hcond, if_false] at ht
       split at ht
       · exact absurd ht (by simp)
       · simp only [Except.ok.injEq] at ht; exact ht.symm
@@ -79,7 +70,7 @@ theorem grouperDims_single_1d (n : String) (d : Dim) (b : Bool) (bn : String) : 
 
 theorem xdims_eq_native (c : Call) (t : List Dim) (ht : dimTuple c = .ok t) (S : Supported c t)
     (v : String × List Dim) (hvm : v ∈ c.vars) : varDims c t v.1 v.2 = .ok (nativeVarDims c v.2) := by
-  have hnat := dimTuple_native c t ht S.ellipsisNoDimCoord
+  have hnat := dimTuple_native c t ht
   have hgv := gd_subset c S.noBroadcast v hvm
   have hb : bdims c t v.2 = v.2 := by simp [bdims, S.noBroadcast]
   unfold varDims nativeVarDims
